@@ -649,6 +649,21 @@ def d6(cx: Cx, ob: Ob) -> None:
                 q = x[1][1]
                 if not (op(q) == "call" and callee_name(q) == "query" and dict(q[3]).get("processor") is not None):
                     ob.violate(h.qualname, where(h, line), f"{fw}: the query is not run as graph.query(sparql, processor=processor)", detail=f"{fw}:query")
+                elif q[2]:
+                    # the text handed to the engine is the text the client sent (the framework has decoded the
+                    # transport encoding already): another decoding / rewriting step changes the IRIs inside it
+                    qt = q[2][0]
+                    rew = [y for y in subterms(qt) if op(y) == "call" and ((op(y[1]) == "ext" and y[1][1].rsplit(".", 1)[-1] in ("unquote", "unquote_plus", "quote", "unescape", "escape", "sub", "normalize")) or (op(y[1]) == "attr" and y[1][2] in ("replace", "strip", "lstrip", "rstrip", "lower", "upper", "casefold", "translate", "encode", "decode", "format")))]
+                    # ... unless the text cannot be a query as it stands (no `{` in it: a client that quoted it whole)
+                    cannot_be_query = any(g.kind == "guard" and g.b is False and op(g.a) == "cmp" and g.a[1] == "in" and is_const(g.a[2], "{") for g in ctx.guards)
+                    if rew and not cannot_be_query:
+                        ob.violate(
+                            h.qualname,
+                            where(h, line),
+                            f"{fw}: the query text is rewritten (`{show(rew[0])[:50]}`) before it reaches the engine: percent-escapes and other characters inside the IRIs of the query are changed, so recognised URIs no longer match (or the query no longer parses)",
+                            witness="a DOI with %2F in a VALUES block: wrong or missing rows; %20 gives a 500",
+                            detail=f"{fw}:query-rewritten",
+                        )
                 kw = dict(t[3]) if op(t) == "call" else {}
                 declared = kw.get("content_type") or kw.get("media_type") or kw.get("mimetype")
                 if declared != ct:
